@@ -1,7 +1,10 @@
 import fam_seq
+import fam_loctext
 
 
 def lookup(prop):
     if prop in fam_seq.PROPS:
         return fam_seq.run
+    if prop == "C06":
+        return fam_loctext.run
     return None
